@@ -408,11 +408,17 @@ func copyVars(v map[string]string) numscript.VariablesMap {
 
 // Run executes a parsed script against a store, guarded.
 func Run(pr numscript.ParseResult, vars map[string]string, flags map[string]struct{}, st numscript.Store) *Outcome {
+	return RunCtx(context.Background(), pr, vars, flags, st)
+}
+
+// RunCtx is Run under a context of the caller's (e.g. one that is already cancelled: the
+// harness stores do not look at it).
+func RunCtx(ctx context.Context, pr numscript.ParseResult, vars map[string]string, flags map[string]struct{}, st numscript.Store) *Outcome {
 	o := &Outcome{}
 	var res numscript.ExecutionResult
 	var err numscript.InterpreterError
 	p, v, fr := fw.Catch(func() {
-		res, err = pr.RunWithFeatureFlags(context.Background(), copyVars(vars), st, flags)
+		res, err = pr.RunWithFeatureFlags(ctx, copyVars(vars), st, flags)
 	})
 	if s, ok := st.(*Store); ok {
 		o.Calls = s.Calls
